@@ -100,6 +100,11 @@ func runC13(src sim.Source, o Opts) *Result {
 	if ng == 0 && !useDefault && src.Intn("nospy", 2) == 1 {
 		cfg.NoRedirectSpy = true // a router without a single global middleware
 		res.inc("config_no_global_middleware_at_all")
+	} else if src.Intn("nospy2", 3) == 2 {
+		// the harness' own observer of the built-in redirect handler is itself a global middleware scoped to it, and the
+		// last one registered: without it the drawn list ends as drawn (the redirect is then recognised by its status)
+		cfg.NoRedirectSpy = true
+		res.inc("config_without_redirect_observer")
 	}
 	w, err := world.Build(cfg, opts...)
 	if err != nil {
@@ -220,7 +225,12 @@ func runC13(src sim.Source, o Opts) *Result {
 	check := func(what string, p world.Probe, wantKind model.Kind, routeMW []int) bool {
 		res.Checks++
 		obs := w.Serve(p, "", "", nil)
-		if obs.Kind != wantKind {
+		if wantKind == model.KRedirect && cfg.NoRedirectSpy {
+			if obs.Status != 301 || obs.Kind != -1 {
+				res.fail("C13/kind", "%s: %s %s answered with status %d by %s, expected the redirect handler (301)", what, p.Method, p.Path, obs.Status, obs.Kind)
+				return false
+			}
+		} else if obs.Kind != wantKind {
 			res.fail("C13/kind", "%s: %s %s answered by %s, expected %s", what, p.Method, p.Path, obs.Kind, wantKind)
 			return false
 		}
@@ -242,7 +252,7 @@ func runC13(src sim.Source, o Opts) *Result {
 		!check("no route (method without routes, 405 on)", world.Probe{Method: "PURGE", Path: "/nothing/here"}, model.KNoRoute, nil) ||
 		!check("no method", world.Probe{Method: "POST", Path: "/r0/v"}, model.KNoMethod, nil) ||
 		!check("options", world.Probe{Method: "OPTIONS", Path: "/r0/v"}, model.KOptions, nil) ||
-		(!cfg.NoRedirectSpy && !check("redirect", world.Probe{Method: "GET", Path: "/r0/v/"}, model.KRedirect, nil)) {
+		!check("redirect", world.Probe{Method: "GET", Path: "/r0/v/"}, model.KRedirect, nil) {
 		return res
 	}
 	// a route that ignores trailing slashes, reached with the slash toggled (its own dispatch branch in ServeHTTP): same
